@@ -3,6 +3,7 @@ import Verif.Proofs.C09HtmlModelRaw
 import Verif.Proofs.C09HtmlModelComment
 import Verif.Proofs.C09HtmlPieces
 import Verif.Proofs.C09HtmlSecond
+import Verif.Proofs.C09HtmlFlagship
 import Verif.Props.C03
 /-!
 # C09 / HTML — property-level theorems
@@ -123,6 +124,26 @@ theorem html_comment_closed_partial : type_of% @Verif.Proofs.C09HtmlComment.html
 /-- **html_comment_closed_counterexample** (K-C09-HTML-1): `<!-->x-->` written verbatim is an empty comment plus text -/
 theorem html_comment_closed_counterexample : ¬ Verif.Proofs.C09HtmlComment.html_comment_closed_full :=
   Verif.Proofs.C09HtmlComment.html_comment_closed_counterexample
+
+/-! ## the whole output -/
+
+/-- **html_output_retokenises_partial** (flagship): see `Verif.Proofs.C09HtmlFlagship.html_output_retokenises_partial` — for
+    every option set, external-result table, sub-minifier and token stream on which the model returns `out` and the
+    decidable guard `walk` holds on every step, `out` is the concatenation of the per-token pieces and the standard's
+    tokenizer reads it as `intended` = each piece read on its own (`Spec/C09HtmlIntended.lean`). -/
+theorem html_output_retokenises_partial : type_of% @Verif.Proofs.C09HtmlFlagship.html_output_retokenises_partial :=
+  @Verif.Proofs.C09HtmlFlagship.html_output_retokenises_partial
+
+/-- **html_output_retokenises_counterexample** (K-C09-HTML-4): `a<`, a removed comment, `b>c` is read as a start tag `b` -/
+theorem html_output_retokenises_counterexample : ¬ Verif.Proofs.C09HtmlFlagship.html_output_retokenises_full :=
+  Verif.Proofs.C09HtmlFlagship.html_output_retokenises_counterexample
+
+/-- **html_text_safe_not_preserved** (K-C09-HTML-10): `<&#98;>` is written as `<b>` -/
+theorem html_text_safe_not_preserved : type_of% @Verif.Proofs.C09HtmlFlagship.html_text_safe_not_preserved :=
+  @Verif.Proofs.C09HtmlFlagship.html_text_safe_not_preserved
+
+/-- pieces compose: the abstract composition lemma behind the flagship -/
+theorem html_pieces_compose : type_of% @Verif.Proofs.C09HtmlPieces.Reads.append := @Verif.Proofs.C09HtmlPieces.Reads.append
 
 /-! ## second pass -/
 
